@@ -93,6 +93,8 @@ structure ExtState where
   hypTokens : List (Bytes × String) := []
   hypRouters : List (Bytes × Nat × Nat) := []
   hypHook : Hook := .noop
+  /-- every gas paymaster ever created, in creation order (the k-th one has internal id k: the no-op hook of the set-up is 0) -/
+  hypIgps : List Hook := []
 
 structure World where
   orb : OrbState
